@@ -225,8 +225,10 @@ def gen_mesh(o):
         T.fail(rel, iv, "unexpected is_valid")
     o.d("Definition prepare_edge_is_valid (a b N : Z) : bool := %s." % bexpr(b[0].value, {"a": "a", "b": "b", "N": "N"}, {}, rel))
     pt = ast.unparse(pe)
-    if "N = len(self.vertices)" not in pt or "edges_invalid = any((not is_valid(a, b) for a, b in self.edges))" not in pt \
-            or not re.search(r"if is_valid\(a, b\):\n\s+new_edges\.append\(utils\.keyify\(", pt):
+    # an edge is kept iff it is valid and the first one declared with its key: some edge survives iff some edge is valid
+    if "N = len(self.vertices)" not in pt or "keep.append(is_valid(a, b) and key not in seen)" not in pt \
+            or not re.search(r"if keep\[-1\]:\n\s+seen\.add\(key\)", pt) or "edges_invalid = not all(keep)" not in pt \
+            or not re.search(r"if keep\[ie\]:\n\s+new_edges\.append\(utils\.keyify\(", pt):
         T.fail(rel, pe, "unexpected _prepare_edges")
 
     rel = "mouette/mesh/mesh.py"
@@ -443,7 +445,7 @@ def gen_obj(o):
             seen["vn"] = kw
         elif b == ["uv_coords.append(Vec([float(toks[1]), float(toks[2])]))"]:
             seen["vt"] = kw
-        elif b == ["faces.append([parse_vertex(vstr) for vstr in toks[1:]])"]:
+        elif b == ["faces.append([parse_vertex(vstr, len(obj.vertices), len(uv_coords), len(normals)) for vstr in toks[1:]])"]:
             seen["f"] = kw
         elif len(b) == 1 and isinstance(body[0], ast.For) and b[0].endswith("e = keyify(v1, v2)\n    obj.edges.append(e)"):
             lp = body[0]
@@ -454,18 +456,11 @@ def gen_obj(o):
             if not (isinstance(asg, ast.Assign) and ast.unparse(asg.targets[0]) == "(v1, v2)" and isinstance(asg.value, ast.Tuple)
                     and len(asg.value.elts) == 2):
                 T.fail(rel, asg, "expected v1,v2 = ..., ...")
-            forms = set()
-            offs = []
-            for e in asg.value.elts:
-                subs = [x for x in walk_type(e, ast.Subscript) if ast.unparse(x.value) == tk]
-                if len(subs) != 1:
-                    T.fail(rel, e, "expected one toks[..]")
-                offs.append(ast.unparse(subs[0].slice))
-                forms.add(zexpr(e, {"int(%s)" % ast.unparse(subs[0]): "x"}, rel))
-            if offs != [iv, "%s + 1" % iv] or len(forms) != 1:
-                T.fail(rel, asg, "polyline segment is not (toks[i], toks[i+1]) converted alike")
+            # both ends resolved like a face reference, against the vertices read so far
+            want = ["resolve_index(int(%s[%s]), len(obj.vertices))" % (tk, iv), "resolve_index(int(%s[%s + 1]), len(obj.vertices))" % (tk, iv)]
+            if [ast.unparse(e) for e in asg.value.elts] != want:
+                T.fail(rel, asg, "polyline segment is not (resolve_index(int(toks[i]), len(obj.vertices)), resolve_index(int(toks[i+1]), ...))")
             seen["l"] = kw
-            o.d("Definition obj_imp_edge (x : Z) : Z := %s." % forms.pop())
         else:
             T.fail(rel, test, "unrecognised branch for keyword %r" % kw)
     for k in ("v", "vn", "vt", "f", "l"):
@@ -475,11 +470,23 @@ def gen_obj(o):
     pv = T.find_def(tree, "parse_vertex", rel)
     o.src("parse_vertex", src, pv)
     b = T.body_nodoc(pv)
+    if [a.arg for a in pv.args.args] != ["vstr", "nv", "nt", "nn"]:
+        T.fail(rel, pv, "parse_vertex does not take (vstr, nv, nt, nn)")
     if ast.unparse(b[0]) != "vals = vstr.split('/')" or not (isinstance(b[1], ast.Assign) and ast.unparse(b[1].targets[0]) == "vid"):
         T.fail(rel, pv, "unexpected parse_vertex")
+    if ast.unparse(b[1].value) != "resolve_index(int(vals[0]), nv)":
+        T.fail(rel, pv, "the vertex reference is not resolve_index(int(vals[0]), nv)")
+    ri = T.find_def(tree, "resolve_index", rel)
+    o.src("resolve_index", src, ri)
+    rb = T.body_nodoc(ri)
+    if [a.arg for a in ri.args.args] != ["i", "n"] or len(rb) != 1 or not isinstance(rb[0], ast.Return) or not isinstance(rb[0].value, ast.IfExp):
+        T.fail(rel, ri, "resolve_index(i, n) is not a single conditional expression")
+    ife = rb[0].value
+    env = {"i": "i", "n": "n"}
+    o.d("(* an .obj reference: counted from 1, a negative one relative to the n elements read so far *)")
+    o.d("Definition obj_imp_resolve (i n : Z) : Z := if %s then %s else %s." % (bexpr(ife.test, env, {}, rel), zexpr(ife.body, env, rel), zexpr(ife.orelse, env, rel)))
     if not (isinstance(b[-1], ast.Return) and ast.unparse(b[-1].value) == "(vid, tid, nid)"):
         T.fail(rel, pv, "parse_vertex does not return (vid,tid,nid)")
-    o.d("Definition obj_imp_vid (x : Z) : Z := %s." % zexpr(b[1].value, {"int(vals[0])": "x"}, rel))
     # face vertex order is kept
     tail = [ast.unparse(s) for s in im.body]
     if not any("face.append(vid)" in t and "obj.faces.append(face)" in t for t in tail):
